@@ -13,9 +13,21 @@ def U(name):
         "Sv": [{"k": "step", "fn": {"ret": T(1, "a", None)}}],
         "Sm": [{"k": "step", "fn": {"ret": 7}, "sem": "most"}],
         "R": [{"k": "step", "fn": {"fail": 1, "then": {"ret": "ok"}}, "retry": {"table": [1, "no"]}}],
+        # at-most-once step whose first attempt fails: the second attempt starts from a READY record
+        "Smr": [{"k": "try", "catch": ["CallableRuntimeError"],
+                 "body": {"k": "step", "sem": "most", "fn": {"fail": 1, "then": {"ret": "v2"}}, "retry": {"table": [1, "no"]}}}],
+        "Psmr": [{"k": "par", "cfg": {"cc": "all_completed"}, "branches": [
+            [{"k": "try", "catch": ["CallableRuntimeError"],
+              "body": {"k": "step", "sem": "most", "fn": {"fail": 1, "then": {"ret": "v2"}}, "retry": {"table": [1, "no"]}}}],
+            [{"k": "step", "fn": {"sleep": 4, "then": {"ret": "slow"}}}]]}],
         "R2": [{"k": "step", "fn": {"fail": 2, "then": {"ret": "ok2"}}, "retry": {"table": [1, 2, "no"]}}],
         "F": [{"k": "try", "catch": ["CallableRuntimeError"],
                "body": {"k": "step", "fn": {"raise": "Boom", "msg": "always"}, "retry": "none"}}],
+        # user code inside a step fails with an exception of the SDK's own invocation-error family
+        "Fi": [{"k": "try", "catch": ["CallableRuntimeError", "InvocationError", "StepInterruptedError"],
+                "body": {"k": "step", "fn": {"raise": "InvocationError", "msg": "from-user-code"}, "retry": "none"}}],
+        "Fs": [{"k": "try", "catch": ["CallableRuntimeError", "InvocationError", "StepInterruptedError"],
+                "body": {"k": "step", "fn": {"raise": "StepInterruptedError", "msg": "from-user-code"}, "retry": {"table": [1, "no"]}}}],
         "W": [{"k": "wait", "s": 2}],
         "W1": [{"k": "wait", "s": 1}],
         "C": [{"k": "cb"}],
@@ -62,7 +74,7 @@ def U(name):
 FULL = ["S", "Sv", "Sm", "R", "F", "W", "C", "Cs", "K", "I", "N", "H", "P", "M"]
 REDUCED = ["S", "R", "W", "C", "H", "P"]
 NESTED = ["Hh", "Hf", "Pw", "Pc", "Mw", "N3", "R2", "Nf", "Big", "Psw", "Prs"]
-CONCURRENT = {"P", "Pw", "Pc", "M", "Mw", "Psw", "Prs", "Pe", "Me"}
+CONCURRENT = {"P", "Pw", "Pc", "M", "Mw", "Psw", "Prs", "Pe", "Me", "Psmr"}
 
 
 def program(names):
